@@ -85,10 +85,39 @@ func (SlashMonitor) Post(e *Explorer, before, w *World, pre interface{}, ev *Eve
 			continue
 		}
 		becameFunded := nd.DisputeStatus == disputetypes.Voting && (!existed || od.DisputeStatus == disputetypes.Prevote)
+		if becameFunded && nd.FeeTotal.LT(requiredFee(nd)) {
+			fail("voting-without-full-fee", fmt.Sprintf("dispute %d entered voting with fee %s of the required %s", nd.DisputeId, nd.FeeTotal, requiredFee(nd)))
+			continue
+		}
 		if !becameFunded {
-			if existed && od.DisputeStatus == disputetypes.Prevote && nd.DisputeStatus == disputetypes.Prevote {
-				// still unfunded: nobody's stake may have been slashed yet (fee payers from bond excepted)
-				continue
+			if nd.DisputeStatus == disputetypes.Prevote && (!existed || !od.FeeTotal.Equal(nd.FeeTotal)) {
+				// a payment that leaves the dispute unfunded: no backer of the report loses stake (the payer's own
+				// selectors excepted when the fee is taken from stake)
+				e.RC.Count("payments_leaving_unfunded", 1)
+				exempt := map[string]bool{}
+				if ev.Msgs != nil {
+					for _, m := range ev.Msgs(before) {
+						switch x := m.(type) {
+						case *disputetypes.MsgProposeDispute:
+							if x.PayFromBond {
+								addSelectorsOf(before, exempt, x.Creator)
+							}
+						case *disputetypes.MsgAddFeeToDispute:
+							if x.PayFromBond {
+								addSelectorsOf(before, exempt, x.Creator)
+							}
+						}
+					}
+				}
+				backers := map[string]bool{}
+				addBackers(before, backers, nd.InitialEvidence.Reporter, nd.InitialEvidence.QueryId, nd.InitialEvidence.BlockNumber)
+				for a := range backers {
+					if s, ok := p.staked[a]; ok && !exempt[a] {
+						if n := w.vecOf(sdk.MustAccAddressFromBech32(a)).staked; n.AddRaw(3).LT(s) {
+							fail("slashed-before-funded", fmt.Sprintf("dispute %d holds fee %s of the required %s but backer %s lost stake %s -> %s", nd.DisputeId, nd.FeeTotal, requiredFee(nd), short(a), s, n))
+						}
+					}
+				}
 			}
 			continue
 		}
